@@ -294,6 +294,13 @@ def run(rep, tier, seed):
     cmap = {c["id"]: c for c in cases}
     for cid, (i, ln, raw, viol) in rejected.items():
         m = meta[cid]
+        if ln.get("ev") in ("died", "hang", "linger"):
+            # a dead or silent driver is a verdict only if it happens again when the case runs alone (an overloaded machine, a
+            # process killed from outside)
+            by2 = run_harness("session", [cmap[cid]], workdir("c03-confirm"), nproc=1)
+            if not any(e["ev"] in ("died", "hang", "linger", "panic") for e in by2.get(cid, [])):
+                rep.notes.append("unconfirmed %s in case %s (did not happen again in isolation)" % (ln["ev"], cid))
+                continue
         ctx = [l for l, _ in per[cid][max(1, i - 4): i + 1]]
         rep.violation("dispatch in %s (%s): table %s, steps %s not explained by the reference" %
                       (m["km"], m["mode"], json.dumps([(e["seq"], e["cmd"] or ("macro", e["body"])) for e in m["table"]]), json.dumps(ctx)[:500]),
